@@ -200,6 +200,110 @@ def zip_find_call(ctx, f):
     return srcs
 
 
+def _pair_differs_closure(ctx, clo):
+    """the closure is |(l, r)| l != r on the two components of the pair it is handed"""
+    if not (isinstance(clo, tuple) and clo and clo[0] == "agg" and clo[1] == "closure"):
+        return False
+    rets = [p.end[1] for p in ret_paths(ctx.paths(clo[2]) or [])]
+    if len(rets) != 1:
+        return False
+    r = rets[0]
+    if isinstance(r, tuple) and r and r[0] == "binop" and r[1] == "Ne":
+        a, b = deval(r[2]), deval(r[3])
+    elif eq_call(r) is not None and eq_call(r)[0]:
+        a, b = deval(eq_call(r)[1]), deval(eq_call(r)[2])
+    else:
+        return False
+
+    def comp(x):
+        if isinstance(x, tuple) and len(x) > 2 and x[0] == "field" and x[2] in (0, 1) and deval(x[1]) == ("param", 2):
+            return x[2]
+        return None
+    return {comp(a), comp(b)} == {0, 1}
+
+
+def lockstep_find_call(ctx, f):
+    """[param of component 0, param of component 1] if f is
+         (0..max(len l, len r)).map(|i| (l.version.get(i) or 0, r.version.get(i) or 0)).find(|(a, b)| a != b)
+       the first position, padding the shorter side with 0, at which the two versions differ"""
+    if not (is_call(f, "Iterator>::find", "iter::Iterator::find") and len(call_args(f)) == 2):
+        return None
+    it = strip_refs(call_args(f)[0])
+    while isinstance(it, tuple) and it and it[0] == "loc" and len(it) > 2:
+        it = strip_refs(it[2])
+    if not (is_call(it, "Iterator::map") and len(call_args(it)) == 2):
+        return None
+    rg = agg_variant(strip_refs(call_args(it)[0]))
+    if not (rg and rg[1] == "Range" and const_int(rg[2][0]) == 0 and is_max_len(rg[2][1])):
+        return None
+    clo = strip_refs(call_args(it)[1])
+    if not (isinstance(clo, tuple) and clo[:2] == ("agg", "closure")):
+        return None
+    caps = clo[4]
+    rps = ret_paths(ctx.paths(clo[2]) or [])
+    if not rps:
+        return None
+
+    def side_of_get(g):
+        """param (1/3) if g is [copied](V.get(i)) with i the closure's own argument and V the version vector of a captured dewey_cmp parameter"""
+        g = strip_refs(g)
+        if is_call(g, "Option::copied", "Option::cloned", "copied", "cloned") and len(call_args(g)) == 1:
+            g = strip_refs(call_args(g)[0])
+        if not (is_call(g, "[T]>::get", "Vec::get") and len(call_args(g)) == 2 and strip_refs(call_args(g)[1]) == ("param", 2)):
+            return None
+        v = strip_refs(call_args(g)[0])
+        if not (isinstance(v, tuple) and v[0] == "field" and v[3] == "version"):
+            return None
+        up = v[1]
+        while isinstance(up, tuple) and up and up[0] in ("deref", "ref"):
+            up = up[1]
+        if not (isinstance(up, tuple) and up[0] == "field" and isinstance(up[2], int) and deval(up[1]) == ("param", 1) and up[2] < len(caps)):
+            return None
+        c_ = deval(caps[up[2]])
+        return c_[1] if c_ in (("param", 1), ("param", 3)) else None
+    slots = [set(), set()]
+    seen = set()
+    for p in rps:
+        r = strip_refs(p.end[1])
+        if not (isinstance(r, tuple) and r[:2] == ("agg", "tuple") and len(r[4]) == 2):
+            return None
+        row = []
+        for k, x in enumerate(r[4]):
+            x0 = strip_refs(x)
+            if const_int(x0) == 0:
+                row.append(False)
+                continue
+            if not (isinstance(x0, tuple) and x0[0] == "field" and x0[2] == 0 and isinstance(x0[1], tuple) and x0[1][0] == "downcast" and x0[1][2] == "Some"):
+                return None
+            sd = side_of_get(x0[1][1])
+            if sd is None or not any(c.term == ("discr", x0[1][1]) and c.fact == ("eq", 1) for c in p.conds()):
+                return None
+            slots[k].add(sd)
+            row.append(True)
+        # a 0 stands for an absent position: the same lookup came back None on this path
+        nones = [side_of_get(c.term[1]) for c in p.conds() if c.term[0] == "discr" and (c.fact == ("eq", 0) or (c.fact[0] == "ne" and 1 in c.fact[1]))]
+        row_sides = []
+        seen.add(tuple(row))
+        if any(not present for present in row) and len([n_ for n_ in nones if n_ is not None]) != row.count(False):
+            return None
+        p_nones = [n_ for n_ in nones if n_ is not None]
+        p._lock_nones = p_nones
+    if not (len(slots[0]) == 1 and len(slots[1]) == 1 and slots[0] != slots[1]):
+        return None
+    srcs = [next(iter(slots[0])), next(iter(slots[1]))]
+    # on a path where slot k is the 0 padding, the lookup that came back None is slot k's own
+    for p in rps:
+        r = strip_refs(p.end[1])
+        for k, x in enumerate(r[4]):
+            if const_int(strip_refs(x)) == 0 and srcs[k] not in p._lock_nones:
+                return None
+    if seen != {(True, True), (True, False), (False, True), (False, False)} and seen != {(True, True), (True, False), (False, True)}:
+        return None
+    if not _pair_differs_closure(ctx, strip_refs(call_args(f)[1])):
+        return None
+    return srcs
+
+
 def zip_find_item(ctx, t):
     """(find-call, k, param) if t is component k of the pair found by zip_find_call"""
     t = strip_refs(t)
@@ -211,15 +315,22 @@ def zip_find_item(ctx, t):
     f = strip_refs(t[1][1][1])
     srcs = zip_find_call(ctx, f)
     if srcs is None:
+        srcs = lockstep_find_call(ctx, f)
+        if srcs is not None:
+            LOCKSTEP.add(f)
+    if srcs is None:
         return None
     return f, t[2], srcs[t[2]]
 
 
+LOCKSTEP = set()
+
+
 def prefix_searches(ctx, p):
-    """the outcomes (found?) of the common-prefix searches zip(..).find(differ) on the path"""
+    """the outcomes (found?) of the common-prefix searches zip(..).find(differ) -- or of the padded lock-step search over 0..max(len) -- on the path"""
     out = []
     for c in p.conds():
-        if c.term[0] == "discr" and zip_find_call(ctx, strip_refs(c.term[1])) is not None:
+        if c.term[0] == "discr" and (zip_find_call(ctx, strip_refs(c.term[1])) is not None or lockstep_find_call(ctx, strip_refs(c.term[1])) is not None):
             out.append(c.fact == ("eq", 1))
     return out
 
@@ -443,7 +554,9 @@ def run(ctx):
             for e in p.events:
                 if e.kind == "call" and e.path == TEST:
                     sites.setdefault((e.bb, side(e.args[0]), side(e.args[2])), []).append((e, p))
-    ctx.floor("CMP-3", CMP, "dewey_test call sites", len(sites) + (1 if helper is not None else 0), 4)
+    # a padded lock-step search (0..max(len), absent positions read as 0 inside the search) is one place that stands for all three regions
+    lock_sites = [k for k, lst in sites.items() if (lambda zf: zf is not None and zf[0] in LOCKSTEP)(zip_find_item(ctx, lst[0][0].args[0]))]
+    ctx.floor("CMP-3", CMP, "dewey_test call sites", len(sites) + (1 if helper is not None else 0) + 2 * len(lock_sites), 4)
     last_bb = max(k[0] for k in sites) if sites else None
     for (bb, _sa, _sb), lst in sorted(sites.items()):
         e0 = lst[0][0]
@@ -470,7 +583,7 @@ def run(ctx):
                     ok5 = ok5 and not found_
                     exhausted += 1
                 finds = [c for c in p.conds() if c.term[0] == "discr" and is_call(strip_refs(c.term[1]), "Iterator>::find", "iter::Iterator::find")
-                         and zip_find_call(ctx, strip_refs(c.term[1])) is None]
+                         and zip_find_call(ctx, strip_refs(c.term[1])) is None and lockstep_find_call(ctx, strip_refs(c.term[1])) is None]
                 none = [tail_find_call(ctx, strip_refs(c.term[1])) for c in finds if c.fact == ("eq", 0) or (c.fact[0] == "ne" and 1 in c.fact[1])]
                 branchwise = bool(finds) and all(strip_refs(c.term[1]) in TAIL_FROM_OTHER for c in finds)
                 # common-prefix loop, plus the zero-padding loop (or the search of the longer side's tail) when the lengths differ
@@ -540,7 +653,7 @@ def run(ctx):
             if fa is not None and fb is not None and fa[0] == fb[0] and fa[1] != fb[1]:
                 # found by `l != r` on the pair's own components: the guard is the search predicate
                 okg = okrng = any(c.term == ("discr", fa[0]) and c.fact == ("eq", 1) for c in p.conds())
-                rdesc = "the first differing pair of lhs.version zipped with rhs.version"
+                rdesc = "the first differing pair of lhs.version zipped with rhs.version" if fa[0] not in LOCKSTEP else "the first differing pair over 0..max(len l, len r), absent positions read as 0"
             tf = tail_find(ctx, b if sa == "zero" else a) if (sa == "zero") != (sb == "zero") else None
             iter_tail = False
             if tf is not None:
@@ -568,6 +681,8 @@ def run(ctx):
         e0 = lst[0][0]
         if not (is_rev(e0.args[0]) or is_rev(e0.args[2])):
             kinds.add((side(e0.args[0]), side(e0.args[2])))
+    if lock_sites and kinds == {("l", "r")}:
+        kinds = {("l", "r"), ("zero", "r"), ("l", "zero")}      # the padding rows were checked where the search was recognised (lockstep_find_call)
     ctx.check(kinds == {("l", "r"), ("zero", "r"), ("l", "zero")}, "CMP-4", CMP, "three-regions", "common prefix, lhs shorter, lhs longer",
               "component comparisons cover %s; expected common prefix (l,r) and both zero-padding regions" % sorted(kinds), fn_span(body))
 
